@@ -9,6 +9,7 @@ import (
 	"strings"
 	"sync"
 	"sync/atomic"
+	"time"
 
 	"verifharness/internal/core"
 	"verifharness/internal/crashlab"
@@ -234,16 +235,18 @@ func c08Rules(res *core.CaseResult, events []rec.Event, commits []c08Commit, tag
 
 // c08Concurrent runs auto-commit DML from several goroutines through ExecuteSQL under the recorder.
 func c08Concurrent(env *core.Env, r *rand.Rand, idx int, res *core.CaseResult) ([]rec.Event, []c08Commit, map[string]any) {
-	memKB := []int{256, 512, 1024}[r.Intn(3)]
+	memKB := []int{96, 128, 256, 1024}[r.Intn(4)]
 	clients := 6 + r.Intn(7)
-	ops := 25
+	ops := 40
 	if env.Thorough() {
-		ops = 60
+		ops = 80
 	}
 	get := rec.Install()
 	db := sqlx.Open(fmt.Sprintf("%s/c08c_%d", env.TmpDir, idx), memKB, sqlx.Options{})
 	rc := get()
 	rec.Uninstall()
+	rc.Concurrent = true
+	rc.LogDelay = []time.Duration{0, 200 * time.Microsecond, 1 * time.Millisecond}[r.Intn(3)]
 	if err := db.CreateTableSQL("cw", crashlab.Cols); err != nil {
 		res.Inconclusive = "create table failed"
 		return nil, nil, nil
@@ -271,9 +274,15 @@ func c08Concurrent(env *core.Env, r *rand.Rand, idx int, res *core.CaseResult) (
 			for n := 0; n < ops && !stop.Load(); n++ {
 				tok := fmt.Sprintf("c%dn%d.", c, n)
 				var sql string
+				if len(mine) > 0 && lr.Intn(3) == 0 {
+					// reads of rows all over the table: buffer-pool misses whose victims are other clients' dirty pages
+					other := int32(lr.Intn(clients)*100000 + lr.Intn(n+1))
+					db.S.ExecuteSQL(fmt.Sprintf("SELECT id, k FROM cw WHERE id = %d;", other))
+					continue
+				}
 				if len(mine) == 0 || lr.Intn(3) == 0 {
 					id := int32(c*100000 + n)
-					sql, _ = sqlx.InsertSQL("cw", crashlab.Cols, []rm.Row{{rm.Int(id), rm.Int(int32(c)), rm.Str(tok + strings.Repeat("x", lr.Intn(300)))}})
+					sql, _ = sqlx.InsertSQL("cw", crashlab.Cols, []rm.Row{{rm.Int(id), rm.Int(int32(c)), rm.Str(tok + strings.Repeat("x", lr.Intn(700)))}})
 					mine = append(mine, id)
 				} else {
 					id := mine[lr.Intn(len(mine))]
@@ -315,5 +324,5 @@ func c08Concurrent(env *core.Env, r *rand.Rand, idx int, res *core.CaseResult) (
 	rc.On = false
 	guarded(func() { db.S.ShutdownForTescase() })
 	res.Add("concurrent_clients", int64(clients))
-	return events, commits, map[string]any{"memKB": memKB, "clients": clients, "ops_per_client": ops, "events": len(events)}
+	return events, commits, map[string]any{"memKB": memKB, "clients": clients, "ops_per_client": ops, "events": len(events), "log_write_delay": rc.LogDelay.String()}
 }
